@@ -51,6 +51,12 @@ def run(ctx):
         bad = ctx.tlc_check("MCNodeTracker", ctx.write_cfg("NodeTracker.%s.cfg" % d, R1 % ("N2", 9, 3, d)), label=d + " (must fail)", must_pass=False, timeout=3000)
         if bad.violated != "MonitorQuiet":
             raise vlib.MachineryError("vacuity: deviation %s not refuted" % d)
+    # liveness: after every stimulus the trackers' own steps come to an end (no message storm); the storm variant must be refuted
+    live = R1.replace("SPECIFICATION Spec", "SPECIFICATION FairSpec").replace("INVARIANTS MonitorQuiet MapIsPicker", "INVARIANTS MonitorQuiet\nPROPERTY ComesToRest")
+    ctx.tlc_check("MCNodeTracker", ctx.write_cfg("NodeTracker.live.cfg", live % ("N2", 4 if quick else 5, 2, "none")), label="ComesToRest under weak fairness", timeout=3000)
+    bad = ctx.tlc_check("MCNodeTracker", ctx.write_cfg("NodeTracker.storm.cfg", live % ("N2", 4, 2, "ReplyToHeartbeat")), label="ReplyToHeartbeat (must fail)", must_pass=False, timeout=3000)
+    if "ComesToRest" not in (bad.violated or "") and "Temporal" not in bad.output:
+        raise vlib.MachineryError("vacuity: the heartbeat ping-pong was not refuted by ComesToRest")
     named, fails = {}, []
     plans = [("bfs4", 4, None, None), ("sim10", 10, "num=%d" % 120, 11)] if quick else [("bfs5", 5, None, None), ("sim12", 12, "num=%d" % 1500, 13)]
     for label, ml, sim, depth in plans:
